@@ -2,7 +2,7 @@
    single follow site.  (That the fd/N magic-link denotes the very open file
    description is the kernel's contract; it is exercised by the runtime oracle
    under rename/replace/unlink histories, not proved here.) *)
-From PV Require Import Discipline ProgTac DisciplineProofs FaultProofs Hoare ProcfsProps FdBalProofs FdBalance.
+From PV Require Import Discipline ProgTac DisciplineProofs FaultProofs Hoare ProcfsProps FdBalProofs FdBalance EffectProofs.
 Open Scope N_scope.
 
 Theorem C09_creat_refused :
@@ -85,8 +85,14 @@ Example C09_reopen_runs :
    | Static.Done t' (Ok nfd) => (Static.tget t' nfd, length t') | _ => (None, 0%nat) end) = (Some 3%nat, 4%nat).
 Proof. vm_compute. repeat split. Qed.
 
+(* reopen never creates or changes anything, whatever flags it is given (for all answers) *)
+Theorem C09_reopen_changes_nothing :
+  forall fz cfg fuel gh fd flags, calls_le eff 0 (reopen fz cfg fuel gh fd flags).
+Proof. intros. apply reopen_ne. Qed.
+
 Print Assumptions C09_creat_refused.
 Print Assumptions C09_fd_independent.
 Print Assumptions C09_single_follow_site.
 Print Assumptions C09_balanced.
 Print Assumptions C09_reopen_same_object.
+Print Assumptions C09_reopen_changes_nothing.
